@@ -27,7 +27,7 @@ def check(rep, ctx):
                    "a non-local name in the serial packages", floor=1)
     R_C = rep.rule("C19-captured", "no reader/writer path mutates an object that outlives the call", floor=1)
     R_F = rep.rule("C19-factory", "plan building mutates nothing pre-existing and allocates no stream", floor=1)
-    R_S = rep.rule("C19-scratch", "every scratch buffer is allocated inside the call that uses it", floor=2)
+    R_S = rep.rule("C19-scratch", "every scratch buffer is allocated inside the call that uses it", floor=1)
     R_H = rep.rule("C19-no-swallow", "no handler catches Exception/BaseException/OSError without re-raising", floor=5)
     R_K = rep.rule("C19-cache", "the cached factories are exactly the functools.cache-decorated entity_reader/entity_writer", floor=2)
     st = scan.module_state(ctx, SERIAL_MODULES + ["kio.records.writers", "kio.records.readers", "kio.records.schema", "kio.index"])
